@@ -32,6 +32,51 @@ def visit_str_keys(p, adt):
 
 
 
+def r8_text_precision(ctx, p):
+    """R8: numbers written as text in the voice file (window coefficients) are parsed at f64
+    precision: the resolved parser combinators of the window-row parser are instantiated with
+    `double` / `ParseTo<f64>`, never with an f32 parser whose result is widened afterwards"""
+    ctx.rule("C04-R8", "window coefficients (text) are parsed as f64: the element parser of parse_window_row is nom `double` (or parse_to::<f64>); no f32 instantiation and no f32->f64 widening in the window parser")
+    root = "model::parser::window::WindowParser::<S>::parse_window_row"
+    b = cm.body_or_fail(ctx, p, "C04-R8", root)
+    if b is None:
+        return
+    bodies = [b] + list(p.nested(root))
+    f64_parser = 0
+    bad = []
+    for bd in bodies:
+        for bb, t in bd.calls():
+            c = t["callee"]
+            if c["k"] != "fndef":
+                continue
+            nm = cm.callee_name(c)
+            gargs = " ".join(str(a) for a in (c.get("args") or []))
+            import re as _re
+            if _re.search(r"\bf32\b", gargs + " " + nm) or "number::complete::float" in gargs + nm:
+                bad.append((bd, t, "%s<%s>" % (nm, gargs[:100])))
+            if "nom::number::complete::double" in gargs + nm or (nm.endswith("ParseTo::parse_to") and _re.search(r"\bf64\b", gargs)):
+                f64_parser += 1
+        for bb, i, st in bd.iter_stmts():
+            if st.get("k") == "assign" and st["rv"]["k"] == "cast" and "Float" in str(st["rv"].get("kind")):
+                bad.append((bd, st, "float cast %s" % st["rv"].get("kind")))
+    for bd, t, what in bad:
+        ctx.fail("C04-R8", bd.path, "f32 in window parser", "the window-row parser goes through single precision (%s): a coefficient such as -0.2 is not the number written in the file" % what, cm.loc_of(t["span"]))
+    if not bad:
+        ctx.ok("C04-R8", "no f32 instantiation or float widening in parse_window_row (%d bodies)" % len(bodies), b.loc())
+    ctx.anchor("C04-R8", "f64 element parsers (double / parse_to::<f64>) in parse_window_row", f64_parser, 1, b.loc())
+    # the parsed Vec<f64> goes to Window::new unchanged
+    wn = p.body("model::voice::window::Window::new")
+    if wn is not None:
+        from .. import paths as _paths
+        ebw = ExprBuilder(wn)
+        rets = [e for bb_, e, item in _paths.return_exprs(wn, ebw)]
+        okw = rets and all(e[0] == "agg" and any(x[0] == "arg" for x in e[2]) for e in rets)
+        if okw:
+            ctx.ok("C04-R8", "Window::new stores the parsed coefficient vector as given", wn.loc())
+        else:
+            ctx.fail("C04-R8", wn.path, "Window::new", "Window::new does not store its argument unchanged: %s" % [show(e)[:100] for e in rets], wn.loc())
+
+
 def r7_ranges(ctx, p):
     """R7: byte ranges of the header are inclusive: a pair (a, b) selects input[a..=b]"""
     ctx.rule("C04-R7", "byte ranges given in the header are inclusive: every slice of the data taken from a header pair (a, b) is input[a ..= b] (or input[a .. b+1]); holds for the section ranges (parse_all) and the window rows (STREAM_WIN)")
@@ -574,6 +619,7 @@ def run(ctx):
     ctx.note("not decided: that jlabel-question implements HTS `*`/`?` wildcard matching (third-party semantics); window text -> coefficient values (nom `double`); that the selected leaf is the one the tree's questions select is decided only as far as R2/R3")
     ctx.assume("serde_derive maps the i-th key of the field visitor to the i-th struct field")
     r7_ranges(ctx, p)
+    r8_text_precision(ctx, p)
     expl = ("Resolved dataflow from header fields to metadata fields, from node-line token positions to yes/no child fields and on to the "
             "tree walk, exact polynomial forms of the index bases and of the three PDF record lengths, the mean|variance|msd split of a "
             "record, the element parsers and the f32->f64 widening, control dependence of each option store on its string-literal key, "
